@@ -230,9 +230,11 @@ Fixpoint lookup_parse (tbl : list (str * bytes * option (str * str * bytes))) (t
 
 (** case = ((cwd components, out dir, contexts, parse table, P-DATA values sent),
             (files found below the scratch root, responses received, association survived to the release)) *)
-Definition check_case
-  (c : (list str * str * list (N * str) * list (str * bytes * option (str * str * bytes)) * list pdv)
-       * (list (list str * str * str * str * bytes) * list (N * N * N * str * str) * bool)) : bool :=
+Definition case_t : Type :=
+  (list str * str * list (N * str) * list (str * bytes * option (str * str * bytes)) * list pdv)
+  * (list (list str * str * str * str * bytes) * list (N * N * N * str * str) * bool).
+(* the harness prints every case as [(term : StorePath.case_t)], so that [None] and [[]] are typed *)
+Definition check_case (c : case_t) : bool :=
   let '((cwd, out, pcs, tbl, vs), (files, rsps, alive)) := c in
   let '(os, e) := run out pcs (lookup_parse tbl) 255 init_state vs in
   fs_eqb (fs_of cwd (files_of os))
